@@ -519,4 +519,345 @@ def runWith (step : HState → HOp → HState × Obs) : HState → List HOp → 
 def runModel (ops : List HOp) : List Obs := runWith stepModel HState.empty ops
 def runSpec (ops : List HOp) : List Obs := runWith stepSpec HState.empty ops
 
+/-! ### Element-generic histories (wave 4, seeded C19_m13)
+
+The same kind of history over `Tensor<T, D>` variables for an **arbitrary element type** `α` whose `==`
+(`[BEq α]`) is *not* assumed to be lawful: `f64` (`NaN != NaN`, `+0.0 == -0.0`), zero-sized types (every
+value equal), records compared by key, next to `i64` / `String`.  New steps: all four constructors,
+`!=`, rebuilding from returned values, `{:?}`, and the std iterators of `iter` / `iter_mut` / `into_iter`
+after partial consumption from both ends (`count`, `len`, `last`, `nth`, `nth_back`, `rev`, collecting). -/
+
+/-- `PartialEq::ne` — the trait's provided method: `!(self == other)` -/
+def ne {α} [BEq α] (t u : Tensor α) : Bool := !(eq t u)
+
+/-- What `==` must answer for an arbitrary element `==`: same shape, same number of elements, and every
+    pair of corresponding elements compares equal. -/
+def specEq {α} [BEq α] (a b : Tensor α) : Bool :=
+  decide (a.dims = b.dims) && (a.data.length == b.data.length) && (a.data.zip b.data).all (fun p => p.1 == p.2)
+
+/-- a reader over a list of already parsed elements (`dflt` at end of input) -/
+def popRd {α} (dflt : α) : List α → α × List α
+  | [] => (dflt, [])
+  | a :: as => (a, as)
+
+/-! #### std iterators over the storage
+
+`iter()` / `iter_mut()` / `into_iter()` yield the storage in order; the state of such an iterator is the
+window of the storage not yet yielded.  Required methods: `next` (front), `next_back` (back); the provided
+methods are modelled by their std definitions in terms of these two. -/
+
+/-- `Iterator::next` -/
+def itNext {α} : List α → Option α × List α
+  | [] => (none, [])
+  | a :: as => (some a, as)
+
+/-- `DoubleEndedIterator::next_back` -/
+def itNextBack {α} (l : List α) : Option α × List α :=
+  match l.getLast? with
+  | none => (none, [])
+  | some a => (some a, l.dropLast)
+
+/-- `k` calls of `next` -/
+def itSkip {α} : Nat → List α → List α
+  | 0, l => l
+  | k + 1, l => itSkip k (itNext l).2
+
+/-- `j` calls of `next_back` -/
+def itSkipBack {α} : Nat → List α → List α
+  | 0, l => l
+  | j + 1, l => itSkipBack j (itNextBack l).2
+
+/-- `Iterator::count`: call `next` until `None`, counting -/
+def itCount {α} : List α → Nat
+  | [] => 0
+  | _ :: as => itCount as + 1
+
+/-- `Iterator::last`: call `next` until `None`, keeping the last value -/
+def itLast {α} : Option α → List α → Option α
+  | acc, [] => acc
+  | _, a :: as => itLast (some a) as
+
+/-- collecting: call `next` until `None` -/
+def itCollect {α} : List α → List α
+  | [] => []
+  | a :: as => a :: itCollect as
+
+/-- `rev()` collected: call `next_back` until `None` (fuel = the `len()` of the iterator) -/
+def itRevCollect {α} : Nat → List α → List α
+  | 0, _ => []
+  | f + 1, l =>
+    match itNextBack l with
+    | (none, _) => []
+    | (some a, l') => a :: itRevCollect f l'
+
+/-- what is asked of a partially consumed iterator -/
+inductive IterQ where
+  | count
+  | len
+  | last
+  | nth (n : Nat)
+  | nthBack (n : Nat)
+  | rev
+  | rest
+  deriving Repr, DecidableEq
+
+/-- One step of an element-generic history. -/
+inductive GOp (α : Type) where
+  /-- `slot s = from_vec(dims, data)` -/
+  | vec (s : Nat) (dims : List Nat) (data : List α)
+  /-- `slot s = from_slice(dims, &data)` -/
+  | sl (s : Nat) (dims : List Nat) (data : List α)
+  /-- `slot s = Tensor::new(dims, v)` -/
+  | new (s : Nat) (dims : List Nat) (v : α)
+  /-- `slot s = Tensor::read(dims, reader)` on a reader that holds `data` -/
+  | rdv (s : Nat) (dims : List Nat) (data : List α) (dflt : α)
+  /-- `slot s = Tensor::new(*slot r .dims(), v)` (a returned shape fed back) -/
+  | like (s r : Nat) (v : α)
+  /-- `slot s = from_vec(*slot r .dims(), slot r .clone().into_iter().collect())` (returned elements fed back) -/
+  | coll (s r : Nat)
+  | cl (s r : Nat)
+  | cf (s r : Nat)
+  | eq (s r : Nat)
+  /-- `slot s != slot r` -/
+  | ne (s r : Nat)
+  | dims (s : Nat)
+  | dim (s : Nat) (i : Nat)
+  | get (s : Nat) (idx : List Nat)
+  | rd (s : Nat) (idx : List Nat)
+  | wr (s : Nat) (idx : List Nat) (v : α)
+  | it (s : Nat)
+  /-- `Writable::write` of slot s (text) -/
+  | w (s : Nat)
+  /-- `{:?}` of slot s (text) -/
+  | dbg (s : Nat)
+  /-- an iterator over slot s after `k` × `next` and `j` × `next_back`, asked `q` -/
+  | itx (s : Nat) (k j : Nat) (q : IterQ)
+
+inductive GObs (α : Type) where
+  | done
+  | bool (b : Bool)
+  | nat (n : Nat)
+  | nats (l : List Nat)
+  | elem (a : α)
+  | elems (l : List α)
+  | opt (o : Option α)
+  | text (cs : List Char)
+  | panic (e : Option Panic)
+  | invalid
+  deriving DecidableEq
+
+def GObs.view {α} : GObs α → GObs α
+  | .panic _ => .panic none
+  | o => o
+
+def GObs.isInvalid {α} : GObs α → Bool
+  | .invalid => true
+  | _ => false
+
+abbrev GState (α : Type) := Nat → Option (Tensor α)
+
+def GState.empty {α} : GState α := fun _ => none
+
+def GState.set {α} (st : GState α) (s : Nat) (t : Tensor α) : GState α := fun k => if k = s then some t else st k
+
+def gobsE {α β} (f : β → GObs α) : Except Panic β → GObs α
+  | .ok a => f a
+  | .error e => .panic (some e)
+
+/-- a constructor's result stored in slot `s` -/
+def gStore {α} (st : GState α) (s : Nat) : Except Panic (Tensor α) → GState α × GObs α
+  | .ok t => (st.set s t, .done)
+  | .error e => (st, .panic (some e))
+
+/-- the model's answer of a (partially consumed) iterator whose remaining window is `l` -/
+def iterAnswer {α} (l : List α) : IterQ → GObs α
+  | .count => .nat (itCount l)
+  | .len => .nat l.length
+  | .last => .opt (itLast none l)
+  | .nth n => .opt (itNext (itSkip n l)).1
+  | .nthBack n => .opt (itNextBack (itSkipBack n l)).1
+  | .rev => .elems (itRevCollect l.length l)
+  | .rest => .elems (itCollect l)
+
+/-- One step as the model executes it; `rw` / `rd` are the element's `Writable` and `Debug` renderings. -/
+def gStepModel {α} [BEq α] (rw rd : α → List Char) (st : GState α) : GOp α → GState α × GObs α
+  | .vec s dims data => gStore st s (fromVec dims data)
+  | .sl s dims data => gStore st s (fromSlice dims data)
+  | .new s dims v => gStore st s (new dims v)
+  | .rdv s dims data dflt =>
+    if ¬ dims.contains 0 ∧ data.length < prod dims then (st, .invalid)
+    else gStore st s (match read dims (popRd dflt) data with
+      | .ok (t, _) => .ok t
+      | .error e => .error e)
+  | .like s r v =>
+    match st r with
+    | some t => gStore st s (new t.dims v)
+    | none => (st, .invalid)
+  | .coll s r =>
+    match st r with
+    | some t => gStore st s (fromVec t.dims (iter (clone t)))
+    | none => (st, .invalid)
+  | .cl s r =>
+    match st r with
+    | some t => (st.set s (clone t), .done)
+    | none => (st, .invalid)
+  | .cf s r =>
+    match st s, st r with
+    | some a, some b => (st.set s (cloneFrom a b), .done)
+    | _, _ => (st, .invalid)
+  | .eq s r =>
+    match st s, st r with
+    | some a, some b => (st, .bool (eq a b))
+    | _, _ => (st, .invalid)
+  | .ne s r =>
+    match st s, st r with
+    | some a, some b => (st, .bool (ne a b))
+    | _, _ => (st, .invalid)
+  | .dims s =>
+    match st s with
+    | some t => (st, .nats t.dims)
+    | none => (st, .invalid)
+  | .dim s i =>
+    match st s with
+    | some t => (st, gobsE .nat (dim t i))
+    | none => (st, .invalid)
+  | .get s idx =>
+    match st s with
+    | some t => (st, gobsE .nat (getIndex t.dims idx))
+    | none => (st, .invalid)
+  | .rd s idx =>
+    match st s with
+    | some t => (st, gobsE .elem (index t idx))
+    | none => (st, .invalid)
+  | .wr s idx v =>
+    match st s with
+    | some t =>
+      match setAt t idx v with
+      | .ok t' => (st.set s t', .elems (iter t'))
+      | .error e => (st, .panic (some e))
+    | none => (st, .invalid)
+  | .it s =>
+    match st s with
+    | some t => (st, .elems (iter t))
+    | none => (st, .invalid)
+  | .w s =>
+    match st s with
+    | some t => (st, gobsE .text (writeText rw t))
+    | none => (st, .invalid)
+  | .dbg s =>
+    match st s with
+    | some t => (st, gobsE .text (debugText rd t))
+    | none => (st, .invalid)
+  | .itx s k j q =>
+    match st s with
+    | some t => (st, iterAnswer (itSkipBack j (itSkip k (iter t))) q)
+    | none => (st, .invalid)
+
+/-- the part of the storage an iterator still holds after `k` elements were taken from the front and `j`
+    from the back: storage positions `k ≤ p < len − j` in row-major order -/
+def specWindow {α} (data : List α) (k j : Nat) : List α := (data.drop k).take (data.length - k - j)
+
+def specIterAnswer {α} (w : List α) : IterQ → GObs α
+  | .count => .nat w.length
+  | .len => .nat w.length
+  | .last => .opt w.getLast?
+  | .nth n => .opt w[n]?
+  | .nthBack n => .opt w.reverse[n]?
+  | .rev => .elems w.reverse
+  | .rest => .elems w
+
+/-- One step as the property states it (a slot holds a shape and the elements in row-major order). -/
+def gStepSpec {α} [BEq α] (rw rd : α → List Char) (st : GState α) : GOp α → GState α × GObs α
+  | .vec s dims data =>
+    if 0 ∈ dims ∨ prod dims ≠ data.length then (st, .panic none) else (st.set s ⟨dims, data⟩, .done)
+  | .sl s dims data =>
+    if 0 ∈ dims ∨ prod dims ≠ data.length then (st, .panic none) else (st.set s ⟨dims, data⟩, .done)
+  | .new s dims v =>
+    if 0 ∈ dims then (st, .panic none) else (st.set s ⟨dims, List.replicate (prod dims) v⟩, .done)
+  | .rdv s dims data _ =>
+    if 0 ∈ dims then (st, .panic none)
+    else if data.length < prod dims then (st, .invalid)
+    else (st.set s ⟨dims, data.take (prod dims)⟩, .done)
+  | .like s r v =>
+    match st r with
+    | some t => (st.set s ⟨t.dims, List.replicate (prod t.dims) v⟩, .done)
+    | none => (st, .invalid)
+  | .coll s r =>
+    match st r with
+    | some t => (st.set s t, .done)
+    | none => (st, .invalid)
+  | .cl s r =>
+    match st r with
+    | some t => (st.set s t, .done)
+    | none => (st, .invalid)
+  | .cf s r =>
+    match st s, st r with
+    | some _, some b => (st.set s b, .done)
+    | _, _ => (st, .invalid)
+  | .eq s r =>
+    match st s, st r with
+    | some a, some b => (st, .bool (specEq a b))
+    | _, _ => (st, .invalid)
+  | .ne s r =>
+    match st s, st r with
+    | some a, some b => (st, .bool (!specEq a b))
+    | _, _ => (st, .invalid)
+  | .dims s =>
+    match st s with
+    | some t => (st, .nats t.dims)
+    | none => (st, .invalid)
+  | .dim s i =>
+    match st s with
+    | some t => (st, if h : i < t.dims.length then .nat t.dims[i] else .panic none)
+    | none => (st, .invalid)
+  | .get s idx =>
+    match st s with
+    | some t => (st, if InRange t.dims idx then .nat (flat t.dims idx) else .panic none)
+    | none => (st, .invalid)
+  | .rd s idx =>
+    match st s with
+    | some t =>
+      (st, if InRange t.dims idx then
+        (match t.data[flat t.dims idx]? with
+         | some a => .elem a
+         | none => .panic none)
+       else .panic none)
+    | none => (st, .invalid)
+  | .wr s idx v =>
+    match st s with
+    | some t =>
+      if InRange t.dims idx then
+        (st.set s ⟨t.dims, t.data.set (flat t.dims idx) v⟩, .elems (t.data.set (flat t.dims idx) v))
+      else (st, .panic none)
+    | none => (st, .invalid)
+  | .it s =>
+    match st s with
+    | some t => (st, .elems t.data)
+    | none => (st, .invalid)
+  | .w s =>
+    match st s with
+    | some t => (st, .text (renderPieces rw (specPieces t.dims t.data)))
+    | none => (st, .invalid)
+  | .dbg s =>
+    match st s with
+    | some t =>
+      (st, .text (List.replicate t.dims.length '[' ++ ((specPieces t.dims t.data).map (renderPieceDbg rd)).flatten ++
+        List.replicate t.dims.length ']'))
+    | none => (st, .invalid)
+  | .itx s k j q =>
+    match st s with
+    | some t => (st, specIterAnswer (specWindow t.data k j) q)
+    | none => (st, .invalid)
+
+def gRunWith {α} (step : GState α → GOp α → GState α × GObs α) : GState α → List (GOp α) → List (GObs α)
+  | _, [] => []
+  | st, op :: ops =>
+    let (st', o) := step st op
+    o :: gRunWith step st' ops
+
+def gRunModel {α} [BEq α] (rw rd : α → List Char) (ops : List (GOp α)) : List (GObs α) :=
+  gRunWith (gStepModel rw rd) GState.empty ops
+def gRunSpec {α} [BEq α] (rw rd : α → List Char) (ops : List (GOp α)) : List (GObs α) :=
+  gRunWith (gStepSpec rw rd) GState.empty ops
+
 end Rlib.Tensor
